@@ -8,16 +8,17 @@ def run(tier):
     run, fx = start("C27", tier,
         "T3 register-before-submit on the 24 generated EventLoop wrappers with token identity between SQE user_data and table key; T5/T1 dispatch in "
         "adapt_io_uring (own user_data, own result, only the timeout entry skipped); T6/T5 errno mapping and T1 slot settlement on the 23 IoUring* "
-        "syscall layers; T5 user_data tagging in every Operator call; thread-path token provenance.",
+        "syscall layers; T5 user_data tagging in every Operator call; thread-path token provenance; T9 every submitted opcode is in the modelled one-completion table.",
         ["core/io_uring"],
         not_decided=["kernel behaviour, SQPOLL timing, completion order"],
-        assumptions=["io_uring returns the user_data of the SQE in its CQE", "multi-CQE operations are out of scope of the table model"])
+        assumptions=["io_uring returns the user_data of the SQE in its CQE", "the opcodes listed in rules/uring.py ONE_COMPLETION post exactly one CQE per SQE (kernel contract)"])
     f = fx["core/io_uring"]
     uring.register_first_rule(run, f, "C27-REGISTER-FIRST")
     uring.dispatch_rule(run, f, "C27-DISPATCH")
     uring.errno_rule(run, f, "C27-ERRNO", "C27-SETTLE")
     uring.userdata_rule(run, f, "C27-USERDATA")
     uring.token_rule(run, f, "C27-TOKEN")
+    uring.one_completion_rule(run, f, "C27-ONE-COMPLETION")
     # clauses added for the wave-2 seeds (rules/wave2.py; DESIGN 12a)
     wave2.uring_direction_rule(run, f, "C27-DIRECTION")
     return run.finish()
